@@ -7,6 +7,7 @@ from __future__ import annotations
 
 import asyncio
 import fnmatch
+import json
 import logging
 from typing import Any
 
@@ -460,7 +461,127 @@ def ensemble_layer(ctx: fw.Ctx, header: str) -> None:
                 ctx.fail('a resource kind that disappeared from the cluster scan is still in the insights',
                          {'layer': 'updres', 'group': grp, 'before': sorted(before), 'source': source_keys}, observed=after, sig='kind-not-removed')
     ctx.differential('D_updres', header, cases_upd, shard=150)
+
+    # ---- observation.revise_resources with a real registry: _update_resources ; _disable_unsuitable_resources (D_revise)
+    cases_rev: list[fw.Case] = []
+    specs = []
+    corpus = fw.ROOT / 'corpus' / 'C19'
+    if corpus.is_dir():
+        for cp in sorted(corpus.glob('*.json')):
+            body = json.loads(cp.read_text())
+            if body.get('layer') == 'revise':
+                specs.append((body, 'corpus'))
+    for _ in range(ctx.scale(300, 4000)):
+        specs.append((gen_revise(r), 'random'))
+    for spec, origin in specs:
+        res = eval_revise(spec)
+        ctx.count('revise', res['class'])
+        for f in res['fails']:
+            ctx.fail(f['what'], {**spec, 'after': res['after']}, observed=f['observed'], sig=f['sig'])
+        cases_rev.append(fw.Case(res['term'], {**spec, 'after': res['after']}, diag=res['diag']))
+    ctx.differential('D_revise', header, cases_rev, shard=150)
     ctx.differential('D_glob', header, cases_glob, shard=300)
+
+
+# ======================================================================================
+# observation.revise_resources with a real registry (spec-driven, also re-run from the corpus)
+# ======================================================================================
+
+REV_GROUPS = ['a.dev', 'b.dev', '']
+REV_KEYS = [(g, n) for g in REV_GROUPS for n in range(3)]
+REV_VERBS = {'all': {'list', 'watch', 'patch', 'get'}, 'ro': {'list', 'watch', 'get'}, 'nowatch': {'list', 'patch', 'get'}, 'nolist': {'watch', 'patch'}}
+
+
+def _kname(k: Any) -> str:
+    return f'{k[0]}/{k[1]}'
+
+
+def _kparse(s_: str) -> tuple:
+    g, n = s_.rsplit('/', 1)
+    return (g, int(n))
+
+
+def gen_revise(r: Any) -> dict:
+    verbs = {_kname(k): r.choice(['all', 'all', 'all', 'ro', 'ro', 'nowatch', 'nolist']) for k in REV_KEYS}
+    handlers = []
+    for k in r.sample(REV_KEYS, r.randrange(1, 6)):
+        for hk in r.sample(['event', 'index', 'create', 'update', 'timer', 'daemon'], r.randrange(1, 3)):
+            handlers.append([_kname(k), hk])
+    grp = r.choice([None, None, 'a.dev', 'b.dev', ''])
+    return {'layer': 'revise', 'verbs': verbs, 'handlers': handlers, 'before': sorted(_kname(k) for k in r.sample(REV_KEYS, r.randrange(0, 5))),
+            'group': grp, 'scan': [_kname(k) for k in REV_KEYS if (grp is None or k[0] == grp) and r.random() < 0.7]}
+
+
+def eval_revise(spec: dict) -> dict:
+    """Real revise_resources on the spec; the model term; the harness's judgement by the documented rule: a kind is served iff a
+    handler selects it in the latest scan (or it belongs to a group that was not re-scanned), it can be listed and watched,
+    and it can be patched unless only event/index handlers are declared for it."""
+    import kopf
+    from kopf._cogs.structs import references
+    from kopf._core.reactor import observation
+    verbs = {_kparse(k): v for k, v in spec['verbs'].items()}
+    pool = {k: references.Resource(group=k[0], version='v1', plural=f'kind{k[1]}', kind=f'Kind{k[1]}', namespaced=(k[1] % 2 == 0),
+                                   verbs=frozenset(REV_VERBS[verbs[k]])) for k in REV_KEYS}
+    back = {v: k for k, v in pool.items()}
+
+    async def _noop(**_: Any) -> None:
+        return None
+    registry = kopf.OperatorRegistry()
+    hkinds: dict[tuple, list[str]] = {}
+    for kn, hk in spec['handlers']:
+        k = _kparse(kn)
+        args = (k[0], 'v1', f'kind{k[1]}') if k[0] else ('v1', f'kind{k[1]}')
+        hid = f'h_{hk}_{k[0]}_{k[1]}'
+        if hk == 'event':
+            kopf.on.event(*args, id=hid, registry=registry)(_noop)
+        elif hk == 'index':
+            kopf.index(*args, id=hid, registry=registry)(_noop)
+        elif hk == 'timer':
+            kopf.timer(*args, id=hid, registry=registry, interval=1)(_noop)
+        elif hk == 'daemon':
+            kopf.daemon(*args, id=hid, registry=registry)(_noop)
+        else:
+            getattr(kopf.on, hk)(*args, id=hid, registry=registry)(_noop)
+        hkinds.setdefault(k, []).append(hk)
+    watched_sel = (registry._indexing.get_all_selectors() | registry._watching.get_all_selectors() |
+                   registry._spawning.get_all_selectors() | registry._changing.get_all_selectors())
+    patched_sel = registry._spawning.get_all_selectors() | registry._changing.get_all_selectors()
+    ins = references.Insights()
+    before = sorted(_kparse(k) for k in spec['before'])
+    ins.watched_resources.update(pool[k] for k in before)
+    grp = spec['group']
+    scan = [_kparse(k) for k in spec['scan']]
+    source = [pool[k] for k in scan]
+    selected = sorted({back[x] for sel in watched_sel for x in sel.select(source)})
+    psel = sorted(k for k in REV_KEYS if any(sel.select([pool[k]]) for sel in patched_sel))
+    observation.revise_resources(group=grp, insights=ins, registry=registry, resources=source)
+    after = sorted(back[x] for x in ins.watched_resources)
+    nowatch = sorted(k for k in REV_KEYS if verbs[k] in ('nowatch', 'nolist'))
+    nopatch = sorted(k for k in REV_KEYS if verbs[k] == 'ro')
+    cand = set(selected) | {k for k in before if not (grp is None or k[0] == grp)}
+    expect = {k for k in cand if k not in nowatch and not (k in nopatch and k in psel)}
+    fails = []
+    for k in sorted(expect - set(after)):
+        fails.append({'sig': 'served-kind-dropped',
+                      'what': 'a resource kind that the handlers select and that can be listed and watched is not in the insights (it will not be watched)',
+                      'observed': {'missing': list(k), 'verbs': verbs[k], 'handlers_on_it': hkinds.get(k, []),
+                                   'state_storing_handlers_on': [_kname(x) for x in psel]}})
+    for k in sorted(set(after) - expect):
+        fails.append({'sig': 'unsuitable-kind-served', 'what': 'a resource kind that must not be served is in the insights',
+                      'observed': {'extra': list(k), 'verbs': verbs[k]}})
+    cls = ('read-only kind with a state-storing handler (dropped)' if any(k in nopatch and k in psel and k not in nowatch for k in cand) else
+           'read-only kinds, event/index handlers only' if any(k in nopatch for k in cand) else 'no read-only kind')
+    if any(k in nopatch and k not in psel and k not in nowatch for k in cand) and any(k in nopatch and k in psel for k in cand):
+        cls += ' next to a read-only kind with event/index handlers only (stays: F1902)'
+    if any(k in psel and k not in nopatch for k in cand):
+        cls += ', state-storing handlers on patchable kinds'
+
+    def c_g(k: tuple) -> str:
+        return cq.cpair(cq.cstr(k[0]), f'{{| rid := {cq.cZ(k[1])}; rns := {cq.cbool(k[1] % 2 == 0)} |}}')
+    ml = lambda ks: cq.clist(c_g(k) for k in ks)
+    gterm = cq.copt(cq.cstr(grp) if grp is not None else None)
+    call = f'revise_watched {gterm} {ml(before)} {ml(selected)} {ml(nowatch)} {ml(nopatch)} {ml(psel)}'
+    return {'after': [_kname(k) for k in after], 'fails': fails, 'class': cls, 'term': f'gres_same ({call}) {ml(after)}', 'diag': call}
 
 
 # ======================================================================================
@@ -474,7 +595,9 @@ def _sim_kinds() -> dict:
     from kv import fakeapi
     return {'k': fakeapi.KOPFEXAMPLE,
             'ct': fakeapi.Kind('kopf.dev', 'v1', 'ClusterThing', 'clusterthings', namespaced=False),
-            'nk': fakeapi.Kind('c19.dev', 'v1', 'SpacedThing', 'spacedthings', namespaced=True)}
+            'nk': fakeapi.Kind('c19.dev', 'v1', 'SpacedThing', 'spacedthings', namespaced=True),
+            # a read-only kind (no `patch` verb), served by an on.event handler only
+            'ro': fakeapi.Kind('ro.c19.dev', 'v1', 'ReadOnlyThing', 'readonlythings', namespaced=True, verbs=('list', 'watch', 'get'))}
 
 
 def gen_sim(r: Any) -> dict:
@@ -494,7 +617,9 @@ def gen_sim(r: Any) -> dict:
             steps.append(['end', r.choice(['eof', 'connection', 'timeout'])])     # every open stream reconnects (no re-list)
     # the version counter starts just below a power of ten: versions gain a digit while the streams are open
     return {'clusterwide': clusterwide, 'init_ns': r.sample(SIM_NS_POOL, r.randrange(0, 3)), 'init_kinds': r.sample(['ct', 'nk'], r.randrange(0, 3)),
-            'steps': steps, 'rv0': r.choice([100, 3, 5, 7, 8, 93, 95, 97, 98, 995, 997])}
+            'steps': steps, 'rv0': r.choice([100, 3, 5, 7, 8, 93, 95, 97, 98, 995, 997]),
+            # a read-only kind with an event handler, next to a kind with a state-storing (on.create) handler that may appear at runtime
+            'ro': r.random() < 0.6, 'ct_handler': r.choice(['event', 'create', 'create'])}
 
 
 def run_sim(case: dict) -> list[dict]:
@@ -503,7 +628,7 @@ def run_sim(case: dict) -> list[dict]:
     from kv import fakeapi, sim
     import kopf
     kinds = _sim_kinds()
-    present = {'k'} | set(case['init_kinds'])
+    present = {'k'} | set(case['init_kinds']) | ({'ro'} if case.get('ro') else set())
     W = sim.World(kinds=[kinds[k] for k in sorted(present)])
     api = W.api
     api.rv = int(case.get('rv0', 100))
@@ -534,7 +659,7 @@ def run_sim(case: dict) -> list[dict]:
         for h in handlers_:
             if 'c19_selector' in h:
                 args, kw = h['c19_selector']
-                kopf.on.event(*args, **kw, id=h['id'], registry=reg)(sim.make_handler(world, inc_, h))
+                getattr(kopf.on, h.get('c19_deco', 'event'))(*args, **kw, id=h['id'], registry=reg)(sim.make_handler(world, inc_, h))
         return reg
     try:
         for ns in case['init_ns']:
@@ -545,8 +670,10 @@ def run_sim(case: dict) -> list[dict]:
         def conf(s: Any) -> None:
             s.scanning.disabled = False
             s.watching.reconnect_backoff = 0.125
-        handlers = [{'id': 'ev_k', 'kind': 'event'}, {'id': 'ev_ct', 'kind': 'event', 'c19_selector': (('cth',), {})},
-                    {'id': 'ev_nk', 'kind': 'event', 'c19_selector': ((), {'category': 'c19cat'})}]
+        ct_kind = case.get('ct_handler', 'event')
+        handlers = [{'id': 'ev_k', 'kind': 'event'}, {'id': 'h_ct', 'kind': ct_kind, 'c19_selector': (('cth',), {}), 'c19_deco': ct_kind},
+                    {'id': 'ev_nk', 'kind': 'event', 'c19_selector': ((), {'category': 'c19cat'})},
+                    {'id': 'ev_ro', 'kind': 'event', 'resource': kinds['ro']}]
         sim.build_registry = build
         try:
             inc = W.operator('op', handlers, namespaces=None if case['clusterwide'] else ['ns*'], configure=conf).start()
@@ -558,7 +685,7 @@ def run_sim(case: dict) -> list[dict]:
             nss = sorted(k[2] for k in api.objects if k[0] == fakeapi.NAMESPACE.key)
             table: dict[str, int] = {}
             for st in api.streams:
-                if not st.closed and st.kind.plural in ('kopfexamples', 'clusterthings', 'spacedthings'):
+                if not st.closed and st.kind.plural in ('kopfexamples', 'clusterthings', 'spacedthings', 'readonlythings'):
                     key = f'{st.kind.plural}|{st.namespace}'
                     table[key] = table.get(key, 0) + 1
             return {'step': step, 'namespaces': nss, 'kinds': sorted(present), 'table': dict(sorted(table.items())),
@@ -681,6 +808,7 @@ def sim_layer(ctx: fw.Ctx) -> None:
         for st in case['steps']:
             ctx.count('sim_steps', st[0] + (':' + st[1] if st[0] == 'end' else ':' + st[2] if st[0] == 'crd~' else ''))
         ctx.count('sim_rv0', str(case.get('rv0', 100)))
+        ctx.count('sim_handlers', f"read-only kind with on.event: {bool(case.get('ro'))}; other kind's handler: on.{case.get('ct_handler', 'event')}")
         for sn in snaps:
             for x, scan in sn.get('latest_scan', {}).items():
                 if x in sn['kinds']:
@@ -819,6 +947,11 @@ def peer_sim_layer(ctx: fw.Ctx) -> None:
 
 
 def replay(ctx: fw.Ctx, case: dict) -> bool:
+    if case.get('layer') == 'revise':
+        res = eval_revise(case)
+        for f in res['fails']:
+            print('  ', f['sig'], f['what'], f['observed'])
+        return bool(res['fails'])
     if case.get('layer') == 'peersim':
         fails = monitor_peer_sim(case, run_peer_sim(case))
         for f in fails:
